@@ -252,10 +252,19 @@ func (w *world) apply(a *Action) (ok bool) {
 		e := &eventlogger.Event{Type: "t", CreatedAt: time.Now(), Formatted: map[string][]byte{}}
 		e.FormattedAs(eventlogger.JSONFormat, Token(a.Ev, size))
 		w.sizes[a.Ev] = size
-		t0 := time.Now()
+		// Time-triggered rotation is judged only where the measured interval makes the outcome certain:
+		// the sink compares time.Since(LastCreated) with MaxDuration somewhere inside this call.
+		lc := w.fs.LastCreated
+		before := time.Since(lc)
 		_, err := w.fs.Process(context.Background(), e)
-		if w.cfg.DurOn && time.Since(t0) > safeDur {
-			w.skip = true
+		after := time.Since(lc)
+		if w.cfg.DurOn && !lc.IsZero() {
+			if a.Texp && before <= MaxDur {
+				w.skip = true // the model says "elapsed", the clock cannot confirm it
+			}
+			if !a.Texp && after >= MaxDur {
+				w.skip = true // the model says "not elapsed", but the call may have seen it elapsed
+			}
 		}
 		if err == nil {
 			w.acked = append(w.acked, a.Ev)
@@ -291,7 +300,7 @@ func (w *world) timingOK(modelExpired bool) bool {
 	}
 	el := time.Since(w.fs.LastCreated)
 	if modelExpired {
-		return el > MaxDur+5*time.Millisecond
+		return el > MaxDur
 	}
 	return el < safeDur
 }
